@@ -20,3 +20,5 @@ int replay_hist(const std::string &prop, const std::string &caseid, uint64_t see
 void prop_c07(hz::Ctx &);
 void prop_c08(hz::Ctx &);
 int replay_buf(const std::string &caseid);
+void prop_c09_grammar(hz::Ctx &);
+int replay_fz(const std::string &caseid);
